@@ -240,9 +240,13 @@ def jobs(tier):
         for fl in ("agen", "acls"):
             J.append({"module": "c06", "fn": "h_fault_groupby", "part": {"N": (2 if q else 3), "key": key, "fl": fl}, "timeout": T})
     if not q:
-        for op in ("zip", "zip_longest", "map", "chain", "merge"):
+        for op in ("zip", "zip_longest", "map", "chain"):
             add(op, 3, 2, 12, fl="agen", ffl="adef")
-        add("islice", 1, 3, 8, fl="agen", ffl="def", form=3, PR=3)
+        for b0 in (False, True):
+            add("merge", 3, 2, 12, fl="agen", ffl="adef", b0=b0, b1=False)
+            add("merge", 3, 1, 9, fl="agen", ffl="adef", b0=b0, b1=True)
+        for step in (1, 2, 3):
+            add("islice", 1, 3, 8, fl="agen", ffl="def", form=3, PR=3, p2=step, b0=False, b1=False, b2=False, ysplit=True)
     return J
 
 
